@@ -1,0 +1,7 @@
+//go:build !verif
+
+package exit
+
+// verifYield is used only by the verification harness (build tag verif); in
+// normal builds it is an empty function.
+func verifYield(string) {}
